@@ -66,4 +66,8 @@ class FrameAudit(Lemma):
 
 
 P = ("C03-", "C01-P3f", "C01-P2:the-receiver")
-CONTRACTS = [FrameAudit(), variant(Run, "C03", P), variant(Spawn, "C03", P), variant(Lookup, "C03", P), variant(Updated, "C03", P)]
+# a scope object handed to another task extends the state of the task that *enters* it, never of the one that made it
+from .C02 import AsyncScope as _AsyncScope, SyncScope as _SyncScope      # noqa: E402
+
+CONTRACTS = [FrameAudit(), variant(Run, "C03", P), variant(Spawn, "C03", P), variant(Lookup, "C03", P), variant(Updated, "C03", P),
+             variant(_AsyncScope, "C03", ("C01-P6",)), variant(_SyncScope, "C03", ("C01-P6",))]
